@@ -289,4 +289,6 @@ if not (abs(Ea - 25.3) <= 0.05 and abs(va - 2200) <= 1 and rel(conv(2, va), 1.79
 if nsf.ABSORPTION_WAVELENGTH != 1.798:
     fail("C04:anchor", "ABSORPTION_WAVELENGTH is %r" % nsf.ABSORPTION_WAVELENGTH)
 
+for _t in sorted(set(ARG_MODIFIED))[:3]:
+    fail("C04:argument-modified", _t, call=_t)
 json.dump(dict(cases=cases, meta=meta, direct_fails=fails, stats=stats), sys.stdout)
